@@ -10,6 +10,10 @@ pid, n = argv[1], argv[2]
 checks = argv[3:] or [pid]
 src = "/tmp/wt/%s/MUTANT/%s" % (pid, n)
 dst = "/verif/seeded/%s" % pid if n == "1" else "/verif/seeded/%s/%s" % (pid, n)
+_old = os.path.join(dst, "meta.json")
+if os.path.exists(_old):
+    _m = json.load(open(_old))
+    json.dump({k: _m[k] for k in ("strengthened", "rebased", "caught_on_first_run") if k in _m}, open(_old + ".keep", "w"))
 if os.path.isdir(src) and not nocopy:
     os.makedirs(dst, exist_ok=True)
     for f in os.listdir(src):
@@ -24,7 +28,11 @@ st = subprocess.run(["git", "-C", "/repo", "status", "--short"], capture_output=
 if st.strip():
     sys.exit("refusing: /repo is not clean:\n" + st)
 meta_p = os.path.join(dst, "meta.json")
+keep = {}
+if os.path.exists(meta_p + ".keep"):
+    keep = json.load(open(meta_p + ".keep"))
 meta = json.load(open(meta_p)) if os.path.exists(meta_p) else {}
+meta.update(keep)
 results = {}
 try:
     subprocess.run(["git", "-C", "/repo", "apply", patch], check=True)
